@@ -42,6 +42,8 @@ Verdict(r) ==
   ELSE IF r.op = "Push" THEN
        IF ~PushOK(cur, Obs(r.post), ToSet(r.set), ToSet(r.pushed),
                   ToSet(r.rejected) \cup ToSet(r.remote_rejected), r.err # "") THEN "PushOK"
+       (* the filler bookmarks pushed along were all in sync: each must have gone through and be recorded *)
+       ELSE IF ~r.fill_ok THEN "FillersPushedOK"
        ELSE IF r.probe \/ r.unexported # <<>> THEN "ImportAfterPushNoop"
        ELSE "ok"
   ELSE "harness:unknown-op"
@@ -62,7 +64,7 @@ Next ==
   \/ /\ l <= Len(Rec)
      /\ LET r == Rec[l]  v == Verdict(r) IN
           /\ (IF v = "ok" THEN TRUE ELSE PrintT(<<"BAD", l, v>>))
-          /\ (IF v \in {"ok", "FetchOK", "PushOK", "ImportAfterFetchNoop", "ImportAfterPushNoop"} /\ Diverges(r)
+          /\ (IF v \in {"ok", "FetchOK", "PushOK", "FillersPushedOK", "ImportAfterFetchNoop", "ImportAfterPushNoop"} /\ Diverges(r)
               THEN PrintT(<<"DIVERGES", l>>) ELSE TRUE)
           /\ IF r.op \in {"panic", "error", "harness_error"}
              THEN UNCHANGED <<cur, par>>
